@@ -17,7 +17,8 @@ RULE = ("Episodes = small net + 8-25 ops drawn from set_user_pf_options (merge/o
         "again including default-valued ones), failing runpp (natural and injected), JSON save/load of the net. "
         "After every runpp that reached option initialisation net._options is compared key by key with the "
         "precedence model. Non-trivial = at least one key was compared after a runpp with a non-empty stored "
-        "dict; distinct = distinct (sorted stored keys, sorted passed keys, which passed values equal the default).")
+        "dict; distinct = distinct (sorted stored keys, sorted passed keys, which passed values equal the default)."
+        " runpp via run_control=True, init='results' after failed runs, derived options ('auto' iteration limit and init angles), delta_q, distributed_slack.")
 COMPONENTS = {"real": ["set_user_pf_options, runpp option initialisation, to_json/from_json"],
               "stub": ["OptionsModel (reference model of stored options and precedence)"]}
 ASSUMPTIONS = ["only option keys whose resolved value is a plain copy of the argument are compared; keys pandapower "
